@@ -23,8 +23,9 @@ RULE = (
     "is_reachable_dfs (all ordered pairs incl. the external name), find_headers_and_entries and "
     "find_exiting_and_exits (all non-empty subsets for n<=4, random beyond), _doms/_post_doms/"
     "_imm_doms are called under the M-query contracts (brute-force references), then one block is "
-    "removed and re-added with other targets through the public primitives and the queries are "
-    "asked again on the same object. in-pipeline: the "
+    "removed and re-added with other targets through the public primitives, then one arc is "
+    "declared a back edge and un-declared again, and the queries are asked again on the same "
+    "object after each edit. in-pipeline: the "
     "same contracts on every query call made while restructuring the graph classes of C01. "
     "distinct = canonical hash of the graph; non-trivial = the graph has at least one edge and "
     "at least one contract compared a non-empty answer"
@@ -162,6 +163,35 @@ def exercise(gd, acc, rng=None, all_subsets=True):
             except RuntimeError:
                 pass
         ctx.hit("direct.requery_after_edit")
+    # a second kind of edit: one arc is declared a back edge (it then no longer
+    # counts as a jump target for any query), queried, and un-declared again
+    arcs = [(a, t) for a in names for t in scfg.graph[a].jump_targets if t in scfg.graph]
+    if arcs:
+        a, t = hr.choice(arcs)
+        if not scfg.graph[a].backedges:
+            scfg.add_block(scfg.graph.pop(a).declare_backedge(t))
+            for phase in (0, 1):
+                for f in (T._doms, T._post_doms):
+                    try:
+                        f(scfg)
+                    except RuntimeError:
+                        pass
+                scfg.compute_scc()
+                for b in names:
+                    scfg.is_reachable_dfs(a, b)
+                    scfg.is_reachable_dfs(b, t)
+                scfg.find_exiting_and_exits({a})
+                try:
+                    scfg.find_headers_and_entries({t})
+                except AssertionError:
+                    pass
+                try:
+                    scfg.find_head()
+                except AssertionError:
+                    pass
+                if phase == 0:
+                    scfg.add_block(scfg.graph.pop(a).replace_backedges(()))
+            ctx.hit("direct.requery_after_backedge_declaration")
     nontrivial = any(gd.values()) and sum(
         v for k, v in ctx.counters.items() if k.startswith("M-query.")) > 0
     case = {"kind": "digraph", "g": gd}
